@@ -22,9 +22,9 @@ def clean():
     return sh(["git", "-C", REPO, "status", "--porcelain"]).stdout.strip() == ""
 
 
-def run_check(prop, tier):
+def run_check(prop, tier, repo=REPO):
     t0 = time.time()
-    p = sh([sys.executable, os.path.join(V, "run", "check.py"), prop, "--tier", tier], cwd=V)
+    p = sh([sys.executable, os.path.join(V, "run", "check.py"), prop, "--tier", tier], cwd=V, env=dict(os.environ, VERIF_REPO=repo, VERIF_NO_EVIDENCE="1"))
     keys = [l.strip()[4:] for l in p.stdout.splitlines() if l.strip().startswith("key=")]
     viol = sum(1 for l in p.stdout.splitlines() if l.startswith("VIOLATION"))
     return dict(exit=p.returncode, violations=viol, keys=[k[:200] for k in keys[:6]], wall_s=round(time.time() - t0, 1),
@@ -36,8 +36,10 @@ def main():
     ap.add_argument("--tier", default="quick")
     ap.add_argument("--only", default="")
     ap.add_argument("--all-props", action="store_true")
+    ap.add_argument("--in-place", action="store_true", help="apply to /repo itself (git apply / git checkout -- .) instead of a scratch copy")
+    ap.add_argument("--redo", action="store_true", help="re-run mutants that already have a result for this tier")
     a = ap.parse_args()
-    if not clean():
+    if a.in_place and not clean():
         print("refusing: /repo working tree is not clean")
         return 2
     sd = os.path.join(V, "seeded")
@@ -52,31 +54,51 @@ def main():
             patch = os.path.join(sd, prop, mut, "patch.diff")
             if not os.path.exists(patch) or (a.only and not mid.startswith(a.only)):
                 continue
-            ap_ = sh(["git", "-C", REPO, "apply", patch])
+            if not a.redo and a.tier in results.get(mid, {}):
+                continue
+            if a.in_place:
+                repo = REPO
+            else:
+                import shutil, tempfile
+                repo = tempfile.mkdtemp(prefix="seedrepo-", dir="/dev/shm")
+                shutil.rmtree(repo)
+                sh(["cp", "-a", REPO, repo])
+                sh(["git", "-C", repo, "checkout", "--", "."])
+            ap_ = sh(["git", "-C", repo, "apply", patch])
             if ap_.returncode != 0:
+                if not a.in_place:
+                    sh(["rm", "-rf", repo])
                 results[mid] = dict(error="patch does not apply: " + ap_.stdout[-300:])
                 print(mid, "PATCH DOES NOT APPLY")
                 continue
             try:
                 r = results.setdefault(mid, {})
-                r[a.tier] = run_check(prop, a.tier)
+                r[a.tier] = run_check(prop, a.tier, repo)
                 r["caught_" + a.tier] = r[a.tier]["exit"] == 1
                 if a.all_props:
                     other = {}
                     for q in claimed:
                         if q != prop:
-                            o = run_check(q, "quick")
+                            o = run_check(q, "quick", repo)
                             if o["exit"] != 0:
                                 other[q] = o
                     r["other_props_quick"] = other
             finally:
-                sh(["git", "-C", REPO, "checkout", "--", "."])
-                sh(["git", "-C", REPO, "clean", "-fdq"])
+                if a.in_place:
+                    sh(["git", "-C", REPO, "checkout", "--", "."])
+                else:
+                    sh(["chmod", "-R", "u+w", repo])
+                    sh(["rm", "-rf", repo])
             print("%-10s %-8s exit=%d violations=%d %5.0fs %s" % (mid, a.tier, r[a.tier]["exit"], r[a.tier]["violations"], r[a.tier]["wall_s"],
                                                                (r[a.tier]["keys"] or [r[a.tier]["tail"][-200:]])[0][:150]))
             sys.stdout.flush()
-            json.dump(results, open(resf, "w"), indent=1, sort_keys=True)
-    assert clean()
+            # several seeded.py processes may run side by side (--only): merge under a lock
+            import fcntl
+            with open(resf + ".lock", "w") as lk:
+                fcntl.flock(lk, fcntl.LOCK_EX)
+                cur = json.load(open(resf)) if os.path.exists(resf) else {}
+                cur[mid] = results[mid]
+                json.dump(cur, open(resf, "w"), indent=1, sort_keys=True)
     return 0
 
 
